@@ -2,7 +2,12 @@
 (***************************************************************************)
 (* IsolationObs (C15) on one recorded scenario.                            *)
 (* conns[c] = [msgs, fault (kind none|panic|bad|badbody|eof|eofmid, pos),  *)
+(*             eofbody = disconnect inside a message body: an abrupt         *)
+(*             disconnect; whether it is also reported as undecodable input  *)
+(*             is left open (the code reports a cut body, not a cut header)  *)
 (*             answered (hop-by-hop ids answered, in order), closed]       *)
+(* fault kinds tlsstall / tlsbad: a TLS listener, the peer stalls in / fails *)
+(* the TLS handshake (harness/drivers/tlsiso.go).                          *)
 (* plus reports (error reports offered), accepted, serve_returned, died.   *)
 (***************************************************************************)
 EXTENDS Integers, Sequences, FiniteSets, TLC
@@ -14,7 +19,8 @@ Reasons(e) ==
   \o (IF e.serve_returned THEN <<"serve-returned">> ELSE <<>>)
   \o (IF \E c \in 1..Len(e.conns) : e.conns[c].fault.kind = "none" /\ e.conns[c].answered # Upto(e.conns[c].msgs) THEN <<"healthy-not-served">> ELSE <<>>)
   \o (IF \E c \in 1..Len(e.conns) : e.conns[c].fault.kind = "none" /\ e.conns[c].closed THEN <<"healthy-closed">> ELSE <<>>)
-  \o (IF \E c \in 1..Len(e.conns) : e.conns[c].fault.kind # "none" /\ ~e.conns[c].closed THEN <<"faulty-not-closed">> ELSE <<>>)
+  \* (a peer stalling in its TLS handshake has done nothing the server could close it for)
+  \o (IF \E c \in 1..Len(e.conns) : e.conns[c].fault.kind \notin {"none", "tlsstall"} /\ ~e.conns[c].closed THEN <<"faulty-not-closed">> ELSE <<>>)
   \o (IF \E c \in 1..Len(e.conns) : e.conns[c].fault.kind # "none" /\ e.conns[c].answered # Upto(e.conns[c].fault.pos - 1) THEN <<"before-fault-not-served">> ELSE <<>>)
   \o (IF \E c \in 1..Len(e.conns) : ~e.conns[c].intact THEN <<"answer-carries-another-connections-data">> ELSE <<>>)
   \o (IF e.reports < CountBad(e.conns) THEN <<"undecodable-not-reported">> ELSE <<>>)
